@@ -206,7 +206,11 @@ class Register:
 
         context = context or {}
 
-        if self.size is not None and idx >= self.size:
+        size = self.resolve_size(context)
+        while isinstance(size, AnnotatedValue):
+            # The size of a register may be given by a let constant
+            size = size.resolve_value(context)
+        if size is not None and idx >= size:
             raise JaqalError("Index out of range.")
         if self.fundamental:
             return (self, idx)
